@@ -288,6 +288,32 @@ func c17Case(c *Ctx) *Result {
 			if (err == nil) != valid {
 				fail("metadata-validation-differs", fmt.Sprintf("low entropy metadata mode %d mask %08x rot %d payloadLen %d extracted %d: accepted=%v, documented validity=%v", mm, mk, ro, pl, ext, err == nil, valid))
 			}
+			// the receive path's wire decoder: encoded body followed by the 16-byte
+			// tag, exactly as long as the metadata says - anything else is an
+			// inconsistent length and is refused
+			if valid && ext > 0 && int(ext) == n && int(pl) == len(enc) && mm == mode && mk == mask && ro == rot {
+				tag := make([]byte, 16)
+				r.Read(tag)
+				wire := append(append([]byte(nil), enc...), tag...)
+				got, werr := protocol.VerifLowEntropyWireDecode(mb, wire)
+				res.Obs["wire_decodes"]++
+				if werr != nil || !bytes.Equal(got, append(append([]byte(nil), src...), tag...)) {
+					fail("wire-decode-differs", fmt.Sprintf("mode %d mask %08x rot %d body %d bytes: the wire decoder returned err=%v, %d bytes", mm, mk, ro, n, werr, len(got)))
+				}
+				delta := pick(r, -17, -16, -8, -1, 1, 7, 8, 16, 100)
+				var bad []byte
+				if delta > 0 {
+					bad = append(append([]byte(nil), wire...), make([]byte, delta)...)
+				} else if len(wire)+delta >= 0 {
+					bad = wire[:len(wire)+delta]
+				}
+				if bad != nil {
+					if _, berr := protocol.VerifLowEntropyWireDecode(mb, bad); berr == nil {
+						fail("wire-decode-accepts-inconsistent-length", fmt.Sprintf("metadata says %d encoded bytes (+16 tag), a wire payload of %d bytes (%+d) was accepted", pl, len(bad), delta))
+					}
+					res.Obs["wire_decodes_inconsistent"]++
+				}
+			}
 		}
 	}
 	res.Shape = shapeHash(c.Idx, cpu.X86.HasBMI2)
